@@ -7,7 +7,7 @@ CONSTANT VarSet = {1, 2, 6}
 CONSTANT BG = 1
 CONSTANT TNs = {4}
 CONSTANT TD = 8
-CONSTANT TailSet = {"left", "right", "both"}
+CONSTANT TailSet = {"left", "both"}
 CONSTANT Paired = TRUE
 CONSTANT K = 2
 CONSTANT KeepDraws = FALSE
